@@ -57,9 +57,13 @@ class StilFile:
 
     def _maps(self, c):
         interface = c.s_nodes
-        intf_pos = dict((n.name, i) for i, n in enumerate(interface))
-        pi_map = [intf_pos[n] for n in self.signal_groups['_pi']]
-        po_map = [intf_pos[n] for n in self.signal_groups['_po']]
+        # A port and a sequential element may share a name (bench-style circuits: 'OUTPUT(q) q=DFF(d)').
+        # Signal groups refer to ports, scan chains to sequential elements: look each up among its own kind first.
+        n_io = len(c.io_nodes)
+        port_pos = dict((n.name, i) for i, n in enumerate(interface[:n_io]))
+        cell_pos = dict((n.name, i + n_io) for i, n in enumerate(interface[n_io:]))
+        pi_map = [port_pos[n] if n in port_pos else cell_pos[n] for n in self.signal_groups['_pi']]
+        po_map = [port_pos[n] if n in port_pos else cell_pos[n] for n in self.signal_groups['_po']]
         scan_maps = {}
         scan_inversions = {}
         for chain in self.scan_chains.values():
@@ -78,7 +82,7 @@ class StilFile:
                 if n == '!':
                     inversion = not inversion
                 else:
-                    scan_map.append(intf_pos[n])
+                    scan_map.append(cell_pos[n] if n in cell_pos else port_pos[n])
                     scan_out_inversion.append(inversion)
             scan_maps[chain[0]] = scan_map
             scan_maps[chain[-1]] = scan_map
